@@ -1,10 +1,10 @@
 ---------------------------- MODULE ModelStoreEnum ----------------------------
 (* G1 generator for C23: the declarations (OUT_DECL) and every call history of *)
-(* ModelStoreMenu!Histories (OUT), written as ndjson.                         *)
+(* ModelStoreMenu!HistSet (OUT), written as ndjson.                         *)
 EXTENDS ModelStoreMenu, Json, IOUtils, SequencesExt, FiniteSets
 ASSUME ndJsonSerialize(IOEnv.OUT_DECL, <<Decl>>)
-ASSUME ndJsonSerialize(IOEnv.OUT, SetToSeq(Histories))
-ASSUME PrintT(<<"EMITTED", Cardinality(Histories)>>)
+ASSUME ndJsonSerialize(IOEnv.OUT, SetToSeq(HistSet))
+ASSUME PrintT(<<"EMITTED", Cardinality(HistSet)>>)
 EInit == Init
 ENext == UNCHANGED vars
 =============================================================================
